@@ -241,7 +241,23 @@ def check_step(case, prefix, op, shape=None):
         problems.append(("logger:record-count", "%r through %d Logger(s): %d record(s) emitted"
                          % (op, len(expected), len(records))))
         return problems
-    for index, (record, snapshot) in zip(expected, records):
+    # pair records with the Loggers by logger name and level where that is possible (so
+    # that a wrong order is reported as such), by position otherwise
+    names = {}
+    for index in expected:
+        config = logger_config(case, index)
+        names[index] = config["name"] if config["name"] is not None else layers[index].name
+    order, free = [], list(range(len(records)))
+    for index in expected:
+        match = [n for n in free if records[n][0].name == names[index]
+                 and records[n][0].levelno == logger_config(case, index)["level"]]
+        if not match:
+            order = list(range(len(records)))
+            break
+        order.append(match[0])
+        free.remove(match[0])
+    for index, number in zip(expected, order):
+        record, snapshot = records[number]
         config = logger_config(case, index)
         layer = layers[index]
         below = layers[index + 1] if index + 1 < len(layers) else pool
@@ -250,7 +266,7 @@ def check_step(case, prefix, op, shape=None):
             problems.append(("logger:emitted-after-write",
                              "%s: emitted when the pool was %r, before the write it was %r"
                              % (where, snapshot, before)))
-        name = config["name"] if config["name"] is not None else layer.name
+        name = names[index]
         if record.name != name:
             problems.append(("logger:name", "%s: logged to %r, configured %r"
                              % (where, record.name, name)))
@@ -283,6 +299,10 @@ def check_step(case, prefix, op, shape=None):
             if message != want:
                 problems.append(("logger:message", "%s: message %r, the template gives %r"
                                  % (where, message, want)))
+    if order != sorted(order):
+        problems.append(("logger:record-order", "records of stacked Loggers were emitted in "
+                         "the order %r (positions of the Loggers, top first)"
+                         % [expected[order.index(n)] for n in range(len(order))]))
     return problems
 
 
@@ -314,11 +334,12 @@ def explore(acc, case, depth):
                              else op[1], all(k in PLAIN for k in case["stack"]),
                              bool(problems)))
                 if problems:
-                    for key in sorted({key for key, _ in problems}):
-                        text = "; ".join(t for k, t in problems if k == key)
-                        acc.violation(key, "stack %r (top first) over the pool, history %r: %s"
-                                      % (case["stack"], hist + [op], text),
-                                      dict(case, kind="history", hist=hist + [op]))
+                    # one key per broken transition: the first clause that fails
+                    text = "; ".join(text for _, text in problems)
+                    acc.violation(problems[0][0],
+                                  "stack %r (top first) over the pool, history %r: %s"
+                                  % (case["stack"], hist + [op], text),
+                                  dict(case, kind="history", hist=hist + [op]))
                     continue
                 successors.append(hist + [op])
         frontier = successors
@@ -388,7 +409,7 @@ def stacks(max_depth=3):
 
 def templates():
     for size in (0, 1, 2):
-        for fields in itertools.combinations(FIELDS, size):
+        for fields in itertools.permutations(FIELDS, size):  # subsets, in every order
             yield fields
 
 
@@ -402,7 +423,8 @@ def run(ctx):
         rule="every stack of depth 0..3 over PoolDecorator/Logger/Standardiser()/Buffer x "
              "every operation history up to the depth bound (no pruning: a state is the "
              "history), oracle after every transition; every Logger configuration (name "
-             "given/None x level x template over every subset of <= 2 of the field names) "
+             "given/None x level x template over every subset of <= 2 of the field names, in "
+             "both orders) "
              "constructed, and those without the unknown field explored on a single Logger "
              "up to the configuration depth; non-trivial: a write through a Logger, or a "
              "history through at least one decorator that changes something",
